@@ -111,10 +111,11 @@ Definition command_of_str (s : bytes) : res herr command :=
         match rest with
         | [] => Ok (Auth None None)
         | m :: rest2 =>
-            let* mm := mech_of_str m in
+            (* words.next().and_then(|m| m.parse().ok()) *)
+            let mm := match mech_of_str m with Ok x => Some x | _ => None end in
             match rest2 with
-            | [] => Ok (Auth (Some mm) None)
-            | r :: _ => let* rr := hex_decode r in Ok (Auth (Some mm) (Some rr))
+            | [] => Ok (Auth mm None)
+            | r :: _ => let* rr := hex_decode r in Ok (Auth mm (Some rr))
             end
         end
       else if lbeq w (B "CANCEL") then Ok Cancel
@@ -210,9 +211,9 @@ Definition line_pure (first : bool) (buf : bytes) : option (res herr (command * 
   | None => None
   | Some lf =>
       Some (match lf with
-            | O => Panic PArith                               (* recv_buffer[lf_index - 1] with lf_index = 0 *)
+            | O => Err EHandshake                             (* lf_index == 0 || .. : "Invalid line ending" *)
             | S k =>
-                if negb (beq (nth k buf NUL) CR) then Err EHandshake        (* "Invalid line ending" *)
+                if negb (beq (nth k buf NUL) CR) then Err EHandshake        (* recv_buffer[lf_index - 1] != '\r' *)
                 else if first && negb (beq (nth O buf NUL) NUL) then Err EHandshake  (* "First client byte is not NUL!" *)
                 else
                   let start := if first then 1 else 0 in
@@ -332,7 +333,8 @@ Definition handle_auth_k (s : server) (reply : command) : res herr server :=
 
 Definition handle_auth_data_k (s : server) (m : mech) (reply : command) : res herr server :=
   match m, reply with
-  | External, Data None => Ok (auth_ok s)
+  | External, Data None =>
+      match s_client_uid s with Some _ => Ok (auth_ok s) | None => Ok (rejected_error s) end
   | External, Data (Some d) => check_external_auth s d
   | Anonymous, Data _ => Ok (auth_ok s)
   | _, _ => Ok (unsupported_command_error s)
